@@ -198,7 +198,15 @@ def run_impl(case, emitter=None):
     base_ref = Z.ZMQContext.context[1]; base_open = sum(1 for x in world.all_socks if not x.closed)
     real_init = M.MQ.__init__
     def mq_init(self, *a, **kw):
-        h.on_exit_msg = kw.get('on_exit_msg'); real_init(self, *a, **kw)
+        cb = kw.get('on_exit_msg'); real_init(self, *a, **kw)
+        mq = self
+        def deliver(reason):
+            # an exit announcement arrives as an out-of-band message at one of the MQ's endpoints: go through the endpoint's own
+            # callback (MQ's wrapper around the filter's on_exit_msg), not around it
+            ep = mq.receiver if mq.receiver is not None else mq.sender
+            if ep is not None: ep.message_oob([reason])
+            elif cb is not None: cb(reason)
+        h.on_exit_msg = deliver
     old_time, old_emitter = F.time, F.Filter.__dict__.get('emitter')
     M.MQ.__init__ = mq_init; F.time = FakeTime(h); F.Filter.emitter = emitter
     ev = threading.Event()
